@@ -1,6 +1,6 @@
 (* C09 -- property theorems only. *)
 From Coq Require Import List Bool Arith.
-From WNTRV Require Import C09.Model C09.Proofs C09.Graph C09.GraphProofs.
+From WNTRV Require Import C09.Model C09.Proofs C09.Graph C09.GraphProofs C09.Total.
 Import ListNotations.
 
 (* the flagged set is exactly the junctions with no path of non-closed links to a tank or reservoir,
@@ -9,6 +9,11 @@ Theorem C09_isolated_iff : forall links nodes sources juncs I,
   isolated_model links nodes sources juncs = Some I ->
   forall j, In j I <-> (In j juncs /\ ~ reach links sources j).
 Proof. exact isolated_iff. Qed.
+
+(* ... and the model always answers (its fuel suffices) whenever the non-closed links join listed nodes: the theorem above is never vacuous *)
+Theorem C09_model_total : forall links nodes, (forall s e, In (s, e, true) links -> In s nodes /\ In e nodes) ->
+  forall sources juncs, exists I, isolated_model links nodes sources juncs = Some I.
+Proof. exact isolated_model_total. Qed.
 
 Theorem C09_connected_never_isolated : forall links nodes sources juncs I j,
   isolated_model links nodes sources juncs = Some I -> reach links sources j -> ~ In j I.
@@ -37,6 +42,7 @@ Example C09_matrix_history :
 Proof. vm_compute. reflexivity. Qed.
 
 Print Assumptions C09_isolated_iff.
+Print Assumptions C09_model_total.
 Print Assumptions C09_matrix_built_right.
 Print Assumptions C09_matrix_maintained_right.
 Print Assumptions C09_one_update_right.
